@@ -221,6 +221,9 @@ func (x *Exec) detCall(key string, sig *types.Signature, recv *Val, args []Val, 
 	}
 	for j, a := range args {
 		pty := x.w.goTy(sig.Params().At(j).Type(), x.model.BV)
+		if pty.K == TOpaque && a.Ty.K != TOpaque {
+			a = x.toInterface(a, pty, nil)
+		}
 		t := x.coerceTo(a, pty)
 		sorts = append(sorts, t.Sort)
 		ts = append(ts, t)
